@@ -1,11 +1,12 @@
 #!/bin/bash
-# usage: tools/confirm_seed.sh <prop> <X>    (reads /tmp/seedout/<prop>/<X>, writes /verif/seeded/<prop>-<X>/)
+# usage: tools/confirm_seed.sh <prop> <X> [srcroot] [tag]   (reads <srcroot:/tmp/seedout>/<prop>/<X>, writes /verif/seeded/<prop>-<tag><X>/)
 # Confirms a sub-agent's seeded change independently in a scratch worktree of /repo:
 #  patched: builds, demo FAILS, existing tests of touched packages PASS; unpatched: demo PASSES.
 set -u
 PROP=$1; X=$2
-SRC=/tmp/seedout/$PROP/$X
-DST=/verif/seeded/$PROP-$X
+ROOT=${3:-/tmp/seedout}; TAG=${4:-}
+SRC=$ROOT/$PROP/$X
+DST=/verif/seeded/$PROP-$TAG$X
 [ -f "$SRC/patch.diff" ] || { echo "no patch in $SRC"; exit 2; }
 mkdir -p "$DST/demo"
 cp "$SRC/patch.diff" "$DST/patch.diff"; cp -r "$SRC/demo/." "$DST/demo/"; cp "$SRC/meta.json" "$DST/agent_meta.json"
